@@ -68,6 +68,170 @@ func mkNode(w *world.World, name string, idx int, uni, sec string) *world.Node {
 	return w.NewNode(name, world.NodeOpts{ID: ids[idx], Cfg: config.Store{Router: config.Router{Universe: uni, UniverseSecret: sec}}})
 }
 
+// cfgVias: the ways a router's configuration gets from what the operator wrote to the running stack.
+//
+//	"test"  config.MakeTestConfig(store)                         (what the repository's tests and world.NewNode use)
+//	"parse" store.Parse()                                        (what LoadConfig ends in)
+//	"json"  config.LoadConfig of a .json file holding the store  (what the real program does at start-up)
+//	"yaml"  config.LoadConfig of a .yaml file holding the store  (written in YAML's flow style with double-quoted scalars)
+var cfgVias = []string{"test", "parse", "json", "yaml"}
+
+// mkNodeVia: a router stack whose configuration went through the real configuration parser the way `via` says.
+// The universe name and secret are the caller's strings - whatever the parsed configuration reports back afterwards is
+// not looked at.  err != nil: the stack could not be built (a broken check, never a verdict).
+func mkNodeVia(w *world.World, name string, idx int, uni, sec, via string) (n *world.Node, err error) {
+	defer func() {
+		if r := recover(); r != nil {
+			n, err = nil, fmt.Errorf("building %s via %s: panic: %v", name, via, r)
+		}
+	}()
+	n = mkNode(w, name, idx, uni, sec)
+	if via == "test" || via == "" {
+		return n, nil
+	}
+	st := config.Store{
+		Router: config.Router{Universe: uni, UniverseSecret: sec, Address: n.ID.Store(), Listen: []string{"tcp:47369"}},
+		System: config.System{DisableTun: true},
+	}
+	var parsed *config.Config
+	switch via {
+	case "parse":
+		parsed, err = st.Parse()
+	case "json", "yaml":
+		var data []byte
+		if via == "yaml" {
+			// a .yaml file with an `address` block cannot be loaded at all on this tree (yaml.v3 panics on the `omitzero`
+			// tag of m.AddressStorage); the stack takes its identity from n.ID, so the block is left out
+			st.Router.Address = m.AddressStorage{}
+		}
+		if data, err = json.Marshal(st); err != nil {
+			return nil, err
+		}
+		if via == "yaml" {
+			var doc map[string]map[string]any
+			if err = json.Unmarshal(data, &doc); err != nil {
+				return nil, err
+			}
+			delete(doc["router"], "address")
+			if data, err = json.Marshal(doc); err != nil {
+				return nil, err
+			}
+		}
+		// what goes into the file says what the driver wrote, independent of any code of the repository
+		var back struct {
+			Router struct {
+				Universe       string `json:"universe"`
+				UniverseSecret string `json:"universeSecret"`
+			} `json:"router"`
+		}
+		if err = json.Unmarshal(data, &back); err != nil || back.Router.Universe != uni || back.Router.UniverseSecret != sec {
+			return nil, fmt.Errorf("the configuration file would not say what was meant (%v): %s", err, data)
+		}
+		var dir string
+		if dir, err = os.MkdirTemp("", "c04cfg"); err != nil {
+			return nil, err
+		}
+		defer os.RemoveAll(dir)
+		file := dir + "/config." + via // every JSON document is a YAML document (flow style)
+		if err = os.WriteFile(file, data, 0o600); err != nil {
+			return nil, err
+		}
+		parsed, err = config.LoadConfig(file)
+	default:
+		return nil, fmt.Errorf("unknown way %q", via)
+	}
+	if err != nil {
+		return nil, fmt.Errorf("building %s via %s: %w", name, via, err)
+	}
+	if parsed == nil {
+		return nil, fmt.Errorf("building %s via %s: no configuration", name, via)
+	}
+	// nothing has run on the stack yet: every component reads the configuration through n.Config() when it needs it
+	n.Cfg = parsed
+	return n, nil
+}
+
+// white space an operator's file can carry around a secret without anybody seeing it
+var whiteSpaces = []string{" ", "  ", "\t", "\n", "\r\n", "\u00a0"}
+
+// renderCfg: the model's near-miss secrets (" s", "s ") with a white space of the PRNG's choice.
+func renderCfg(rng *rand.Rand, cf cfgT) cfgT {
+	ren := func(s string) string {
+		switch s {
+		case " s":
+			return whiteSpaces[rng.Intn(len(whiteSpaces))] + "s"
+		case "s ":
+			return "s" + whiteSpaces[rng.Intn(len(whiteSpaces))]
+		}
+		return s
+	}
+	// the same model secret at both ends is the same secret at both ends
+	if cf.SecA == cf.SecB {
+		cf.SecA = ren(cf.SecA)
+		cf.SecB = cf.SecA
+		return cf
+	}
+	cf.SecA, cf.SecB = ren(cf.SecA), ren(cf.SecB)
+	return cf
+}
+
+// randomConfig: one configuration pair of a family chosen by the PRNG, from names and secrets an operator could write.
+//
+//	"nameless"    both routers in the default universe (no name); one of them - or both - with a secret
+//	"near-miss"   the same named universe, secrets that differ in white space / case only, or not at all
+//	"half-named"  one router names a universe, the other does not
+//	"any"         names and secrets drawn independently
+func randomConfig(rng *rand.Rand) (cf cfgT, family string) {
+	names := []string{"u", "U", "v", "test", "Test", "ü", "u v"}
+	secrets := []string{"s", "t", "password", "correct horse battery staple", "pass word", "ß3cr3t", "0"}
+	near := func(s string) string {
+		switch rng.Intn(6) {
+		case 0:
+			return whiteSpaces[rng.Intn(len(whiteSpaces))] + s
+		case 1:
+			return s + whiteSpaces[rng.Intn(len(whiteSpaces))]
+		case 2:
+			if up := strings.ToUpper(s); up != s {
+				return up
+			}
+			return s + s
+		case 3:
+			if rs := []rune(s); len(rs) > 0 && rs[0] < 0x80 {
+				if t := strings.ToUpper(string(rs[:1])) + string(rs[1:]); t != s {
+					return t
+				}
+			}
+			return s + " "
+		case 4:
+			return s
+		}
+		return ""
+	}
+	name, sec := names[rng.Intn(len(names))], secrets[rng.Intn(len(secrets))]
+	other := secrets[rng.Intn(len(secrets))]
+	family = []string{"nameless", "nameless", "near-miss", "half-named", "any"}[rng.Intn(5)]
+	switch family {
+	case "nameless":
+		cf = cfgT{"", "", sec, []string{"", "", sec, other, near(sec)}[rng.Intn(5)]}
+	case "near-miss":
+		cf = cfgT{name, name, sec, near(sec)}
+	case "half-named":
+		cf = cfgT{name, "", []string{sec, ""}[rng.Intn(2)], []string{sec, "", other}[rng.Intn(3)]}
+	default:
+		pick := func(pool []string) string {
+			if rng.Intn(4) == 0 {
+				return ""
+			}
+			return pool[rng.Intn(len(pool))]
+		}
+		cf = cfgT{pick(names[:3]), pick(names[:3]), pick(secrets[:2]), pick(secrets[:2])}
+	}
+	if rng.Intn(2) == 0 { // either end, i.e. either role: A dials, B listens
+		cf = cfgT{cf.UniB, cf.UniA, cf.SecB, cf.SecA}
+	}
+	return cf, family
+}
+
 // authenticated byte offsets of a handshake message (2-byte length prefix + frame)
 func authOffsets(data []byte) []int {
 	f := data[2:]
@@ -99,14 +263,36 @@ type observed struct {
 	PeersOK, TrafficOK bool
 	Note               string
 	Skip               bool // the plan could not be applied (reported as broken): nothing to judge
+	// what the driver WROTE into the two configurations (the model's near-miss secrets rendered with a white space of
+	// the PRNG's choice) and how each router was built from it; empty Via = the model's strings through mkNode
+	Cfg        cfgT
+	ViaA, ViaB string
 }
 
 // run executes one link set-up with the plan; byteOff >= 0 selects the corrupted byte (thorough sweep).
 func (r *runner) run(cf cfgT, pl planT, byteOff, bit int) observed {
 	world.InstallLogCapture()
 	w := world.NewWorld()
-	a := mkNode(w, "A", 0, cf.UniA, cf.SecA)
-	b := mkNode(w, "B", 1, cf.UniB, cf.SecB)
+	var a, b *world.Node
+	viaA, viaB := "", ""
+	if pl.Op == "none" {
+		// configurations are explored without wire fault: the strings of the model are rendered (near-miss secrets with
+		// a white space of the PRNG's choice) and each router is built from them through one of the ways the real
+		// program gets its configuration
+		cf = renderCfg(r.rng, cf)
+		viaA, viaB = cfgVias[r.rng.Intn(len(cfgVias))], cfgVias[r.rng.Intn(len(cfgVias))]
+		var err error
+		if a, err = mkNodeVia(w, "A", 0, cf.UniA, cf.SecA, viaA); err == nil {
+			b, err = mkNodeVia(w, "B", 1, cf.UniB, cf.SecB, viaB)
+		}
+		if err != nil {
+			r.c.Broken("configuration %q/%q %q/%q via %s/%s: router not built: %v", cf.UniA, cf.SecA, cf.UniB, cf.SecB, viaA, viaB, err)
+			return observed{Skip: true}
+		}
+	} else {
+		a = mkNode(w, "A", 0, cf.UniA, cf.SecA)
+		b = mkNode(w, "B", 1, cf.UniB, cf.SecB)
+	}
 	da, db := linkworld.StartDrain(a), linkworld.StartDrain(b)
 	defer da.Stop()
 	defer db.Stop()
@@ -255,7 +441,7 @@ func (r *runner) run(cf cfgT, pl planT, byteOff, bit int) observed {
 	}
 	// "registered" = the real set-up returned a link (it had been added to the registry at that moment;
 	// the other end giving up later closes it again)
-	o := observed{RegA: res.LinkA != nil, RegB: res.LinkB != nil, PeersOK: true, TrafficOK: true, Note: note}
+	o := observed{RegA: res.LinkA != nil, RegB: res.LinkB != nil, PeersOK: true, TrafficOK: true, Note: note, Cfg: cf, ViaA: viaA, ViaB: viaB}
 	if o.RegA && res.LinkA.Peer() != b.ID.IP {
 		o.PeersOK = false
 	}
@@ -397,6 +583,22 @@ func spliceMsg(rng *rand.Rand, cur []byte, idx int, old, now [][]byte, body, sig
 		return nil, "the composed message equals today's message"
 	}
 	return out, fmt.Sprintf("message %d = %s bytes under the signature of %s", idx, body, from)
+}
+
+// unproved names a rejected undisturbed set-up in which a router that has a universe secret registered a link to a peer
+// that does not know it (the clause of Handshake_Trace SetupOK TLC rejected the line for); "" = another clause.
+func unproved(ev map[string]any) string {
+	str := func(k string) string { s, _ := ev[k].(string); return s }
+	if str("uniA") != str("uniB") {
+		return ""
+	}
+	for _, x := range []struct{ me, peer string }{{"A", "B"}, {"B", "A"}} {
+		if ev["reg"+x.me] == true && str("sec"+x.me) != "" && str("sec"+x.peer) != str("sec"+x.me) {
+			return fmt.Sprintf("router %s is configured with the universe secret %q (universe name %q, configuration read via %v) and registered a link to a peer that never proved knowledge of it - the peer's configuration says secret %q (universe name %q, read via %v)",
+				x.me, str("sec"+x.me), str("uni"+x.me), ev["via"+x.me], str("sec"+x.peer), str("uni"+x.peer), ev["via"+x.peer])
+		}
+	}
+	return ""
 }
 
 func main() { vf.Main("C04", "model_checking", run) }
@@ -1101,7 +1303,7 @@ func recordedHistory(rng *rand.Rand, sec string, rep int) (evs []any, conns, mee
 }
 
 func run(c *vf.Ctx) {
-	c.Rule("M: TLC on Handshake: 16 universe/secret configurations without wire fault and, for the admissible configurations (no secret / same secret), one fault (drop, corrupt, truncate, duplicate, swap, replay-from-earlier-connection with and without lost receiver state, reflect) at each of the 3 message positions of both directions, every interleaving of the two directions. R: each (configuration, plan) run as a REAL link set-up of two real routers through a proxy that applies the plan to the real bytes (quick: one random authenticated byte per corrupt plan; thorough: every authenticated byte of each of the six messages, 2 bits). Op splice = replay composed with alteration: the message at the plan's position is put together from this connection's message and material its receiver has verified before (bytes of now / of an earlier completed connection with a changed stamp, under the signature of the same or another message of the earlier connection or of an earlier message of this one). HandshakeImpersonate claim recorded: after 1-2 genuine handshakes of P and the victim a third router presents P's identity and puts signatures recorded then under its own messages. T: outcomes judged by TLC. distinct = distinct (configuration, plan, byte)")
+	c.Rule("M: TLC on Handshake: the universe/secret configurations without wire fault (universe names equal / different / differing in case / EMPTY at either end - a router outside any named universe, with or without a secret; secrets none / same / different / differing in surrounding white space or case only) and, for the admissible configurations (no secret / same secret), one fault (drop, corrupt, truncate, duplicate, swap, replay-from-earlier-connection with and without lost receiver state, reflect) at each of the 3 message positions of both directions, every interleaving of the two directions. R: each (configuration, plan) run as a REAL link set-up of two real routers through a proxy that applies the plan to the real bytes (quick: one random authenticated byte per corrupt plan; thorough: every authenticated byte of each of the six messages, 2 bits). Op splice = replay composed with alteration: the message at the plan's position is put together from this connection's message and material its receiver has verified before (bytes of now / of an earlier completed connection with a changed stamp, under the signature of the same or another message of the earlier connection or of an earlier message of this one). HandshakeImpersonate claim recorded: after 1-2 genuine handshakes of P and the victim a third router presents P's identity and puts signatures recorded then under its own messages. R-config: the model's configurations and configurations drawn by the PRNG (nameless, near-miss secrets, half-named, any), every router built from the strings the driver wrote through the real configuration parser (MakeTestConfig, Store.Parse, LoadConfig of a .json / .yaml file); judged from what was written, never from what the parsed configuration reports. T: outcomes judged by TLC. distinct = distinct (configuration, plan, byte)")
 	c.Assume("signature / hash security symbolic in the model, real in the replay", "a set-up in which a message never arrives is ended by closing the connection after 250 ms of silence")
 
 	mc, err := c.TLC("Handshake", "Handshake_MC.cfg", vf.TLCOpts{Workers: 1, Timeout: 10 * time.Minute})
@@ -1119,7 +1321,7 @@ func run(c *vf.Ctx) {
 		if json.Unmarshal([]byte(l), &o) != nil {
 			continue
 		}
-		k := fmt.Sprintf("%v|%v", o.Cfg, o.Plan)
+		k := fmt.Sprintf("%q|%v", o.Cfg, o.Plan)
 		if allowed[k] == nil {
 			allowed[k] = map[string]bool{}
 		}
@@ -1137,9 +1339,14 @@ func run(c *vf.Ctx) {
 	r := &runner{c: c, rng: rand.New(rand.NewSource(c.Seed))}
 	var events []any
 	drift := 0
+	nConfigs, nNameless := 0, 0
 	record := func(o outcome, ob observed) {
-		events = append(events, map[string]any{"ev": "setup", "uniA": o.Cfg.UniA, "uniB": o.Cfg.UniB, "secA": o.Cfg.SecA, "secB": o.Cfg.SecB,
-			"op": o.Plan.Op, "dir": o.Plan.Dir, "idx": o.Plan.Idx, "forgot": o.Plan.Forgot,
+		cf := o.Cfg
+		if ob.ViaA != "" {
+			cf = ob.Cfg // the strings the driver wrote into the two configurations
+		}
+		events = append(events, map[string]any{"ev": "setup", "uniA": cf.UniA, "uniB": cf.UniB, "secA": cf.SecA, "secB": cf.SecB,
+			"op": o.Plan.Op, "dir": o.Plan.Dir, "idx": o.Plan.Idx, "forgot": o.Plan.Forgot, "viaA": ob.ViaA, "viaB": ob.ViaB,
 			"regA": ob.RegA, "regB": ob.RegB, "peersok": ob.PeersOK, "trafficok": ob.TrafficOK, "detail": ob.Note})
 	}
 	for i, k := range keys {
@@ -1148,7 +1355,16 @@ func run(c *vf.Ctx) {
 			continue // run below, once per way of putting the message together
 		}
 		ob := r.run(o.Cfg, o.Plan, -1, 0)
+		if ob.Skip {
+			continue
+		}
 		record(o, ob)
+		if o.Plan.Op == "none" {
+			nConfigs++
+			if o.Cfg.UniA == "" || o.Cfg.UniB == "" {
+				nNameless++
+			}
+		}
 		if !allowed[k][fmt.Sprintf("%v/%v", ob.RegA, ob.RegB)] {
 			drift++
 			c.Logf("drift: %s real outcome %v/%v, model %v", k, ob.RegA, ob.RegB, allowed[k])
@@ -1220,8 +1436,37 @@ func run(c *vf.Ctx) {
 	if splicePlans == 0 {
 		c.Broken("R: the model produced no splice plan")
 	}
-	c.Stage("R", map[string]any{"setups": len(keys) - splicePlans + aged + spliced, "replays_of_a_two_hour_old_connection": aged, "spliced_messages": spliced, "impl_level_drift": drift})
-	c.Logf("R: %d set-ups (%d with a spliced message), drift %d", len(keys)-splicePlans+aged+spliced, spliced, drift)
+	if nNameless == 0 {
+		c.Broken("R: the model produced no configuration with a router outside any named universe")
+	}
+	// ---- configurations beyond the model's handful of strings: names and secrets an operator could write, drawn by the
+	// PRNG family by family (randomConfig), each router built from its configuration through the real configuration
+	// parser in one of the ways the real program does it; no wire fault; the same rules (Handshake_Trace SetupOK)
+	nDrawn := 0
+	{
+		n, fam := 0, map[string]int{}
+		for rep := 0; rep < c.Pick(60, 1200); rep++ {
+			cf, family := randomConfig(r.rng)
+			o := outcome{Cfg: cf, Plan: planT{Op: "none", Dir: "A", Idx: 1}}
+			ob := r.run(cf, o.Plan, -1, 0)
+			if ob.Skip {
+				continue
+			}
+			ob.Note = "configuration family " + family
+			record(o, ob)
+			c.Distinct(fmt.Sprintf("config|%q|%q|%q|%q|%s|%s", ob.Cfg.UniA, ob.Cfg.UniB, ob.Cfg.SecA, ob.Cfg.SecB, ob.ViaA, ob.ViaB))
+			n++
+			fam[family]++
+			if rep%20 == 0 {
+				c.Sample(map[string]any{"cfg": ob.Cfg, "viaA": ob.ViaA, "viaB": ob.ViaB, "family": family, "observed": ob})
+			}
+		}
+		nDrawn = n
+		c.Stage("R-config", map[string]any{"model_configurations": nConfigs, "of_them_with_a_nameless_router": nNameless, "drawn_configurations": n, "families": fam})
+		c.Logf("R-config: %d configurations of the model (%d with a router without universe name), %d drawn (%v)", nConfigs, nNameless, n, fam)
+	}
+	c.Stage("R", map[string]any{"setups": len(keys) - splicePlans + aged + spliced + nDrawn, "drawn_configurations": nDrawn, "replays_of_a_two_hour_old_connection": aged, "spliced_messages": spliced, "impl_level_drift": drift})
+	c.Logf("R: %d set-ups (%d with a spliced message, %d drawn configurations), drift %d", len(keys)-splicePlans+aged+spliced+nDrawn, spliced, nDrawn, drift)
 
 	if c.Thorough() {
 		// every authenticated byte of each of the six messages
@@ -1508,6 +1753,9 @@ func run(c *vf.Ctx) {
 			continue
 		}
 		switch {
+		case ev["op"] == "none" && unproved(ev) != "":
+			what = unproved(ev)
+			key = vf.Key("config-secret", ev["uniA"], ev["uniB"], ev["secA"], ev["secB"])
 		case ev["op"] == "splice" && (ev["regA"] == true || ev["regB"] == true):
 			what = "a router registered the link although the message it received was not what its peer sent: it was put together from this connection's message and one the router had verified before (its sender never signed these bytes)"
 		case ev["op"] != "none" && (ev["regA"] == true || ev["regB"] == true):
